@@ -222,3 +222,13 @@ Proof.
 Qed.
 Lemma meaning tm prog opts argv : forallb opt_ok opts = true -> In argv (render opts) -> parse tm (prog :: argv) = sem tm opts.
 Proof. intros OK I. unfold parse, sem. cbn [tl]. apply parse_render; assumption. Qed.
+
+(* "-s [<seed>] ... must be greater than 0": seed 0 is refused in both spellings (usage is printed) *)
+Lemma seed_zero_rejected tm c rest :
+  parse_args tm c (B "-s0" :: rest) = Reject false /\ parse_args tm c (B "-s" :: B "0" :: rest) = Reject false.
+Proof.
+  split; [reflexivity|]. cbn [parse_args hd_error].
+  change (handle tm c (B "-s") (Some (B "0"))) with (set_shuffle tm c (B "-s") (Some (B "0"))).
+  unfold set_shuffle. cbn [length Nat.ltb Nat.leb]. change (atou (B "0") =? 0) with true. cbv iota. rewrite time_seed_nonzero.
+  reflexivity.
+Qed.
